@@ -401,3 +401,6 @@ func Float(r *big.Rat) float64 {
 	v, _ := r.Float64()
 	return v
 }
+
+// Neg returns -a.
+func Neg(a *big.Rat) *big.Rat { return new(big.Rat).Neg(a) }
